@@ -427,6 +427,30 @@ func c19Announce(r *core.Run) {
 	}
 	r.Sites++
 	r.Check(constructs("RegisterTMRequest"), "C19.announce", "OnOpen announces the client as transaction manager", w.Pos(onOpen.Decl.Pos()), "RegisterTMRequest is built and sent from OnOpen", "a new session is not announced as transaction manager: global transactions cannot begin after a reconnect")
+	// on every path: a session that OnOpen accepts (nil return) has had the TM announcement sent, directly or by
+	// the goroutine started for it — an early return for "sessions we already know" skips it for a reconnect
+	{
+		sp := &flow.Spec{W: w, Depth: 0, Classify: func(pkg *packages.Package, call *ast.CallExpr, callee *types.Func) []flow.Tag {
+			if callee != nil && strings.HasPrefix(callee.Name(), "Send") && len(call.Args) >= 1 {
+				if t, ok := pkg.TypesInfo.TypeOf(call.Args[len(call.Args)-1]).(*types.Named); ok && t.Obj().Name() == "RegisterTMRequest" {
+					return []flow.Tag{"announce"}
+				}
+				if t, ok := pkg.TypesInfo.TypeOf(call.Args[0]).(*types.Named); ok && t.Obj().Name() == "RegisterTMRequest" {
+					return []flow.Tag{"announce"}
+				}
+			}
+			return nil
+		}}
+		res := sp.Analyze(onOpen)
+		for _, ex := range res.Exits {
+			if ex.Class == flow.ExitErr {
+				continue
+			}
+			r.Sites++
+			r.Check(ex.St.Has("announce") || ex.St.Has("go:announce"), "C19.announce", core.ShortKey(onOpen.Obj)+" "+exitRole(ex, nil)+" has announced the transaction manager on the new session", w.Pos(ex.Pos),
+				"RegisterTMRequest sent on every accepting path", "OnOpen accepts the session on a path that does not send RegisterTMRequest: after the connection is lost and re-established the coordinator does not know this client as transaction manager, so no new global transaction can begin")
+		}
+	}
 	r.Sites++
 	r.Check(constructs("RegisterRMRequest"), "C19.announce", "OnOpen announces the registered resources", w.Pos(onOpen.Decl.Pos()), "RegisterRMRequest for the cached resources is reachable from OnOpen",
 		"nothing reachable from OnOpen builds a RegisterRMRequest: resources are announced only when they are created (RMRemoting.RegisterResource), so after the connection to the coordinator is re-established phase-two requests for this client's branches no longer reach it")
